@@ -19,11 +19,41 @@ func (c *Ctx) exprDesc(v ssa.Value) string {
 	return c.exprDesc1(v, 0)
 }
 
+func (c *Ctx) loopsOf(fn *ssa.Function) []*ir.Loop {
+	if c.loopMemo == nil {
+		c.loopMemo = map[*ssa.Function][]*ir.Loop{}
+	}
+	if l, ok := c.loopMemo[fn]; ok {
+		return l
+	}
+	l := ir.Loops(fn)
+	c.loopMemo[fn] = l
+	return l
+}
+
 func (c *Ctx) exprDesc1(v ssa.Value, depth int) string {
-	if depth > 8 {
+	if depth > 14 {
 		return "…"
 	}
 	d := depth + 1
+	// loop induction variables print as idx(collection)
+	if in, ok := v.(ssa.Instruction); ok && in.Parent() != nil {
+		for _, l := range c.loopsOf(in.Parent()) {
+			if l.Index == v && l.Over != nil {
+				return "idx(" + c.exprDesc1(l.Over, d) + ")"
+			}
+		}
+	}
+	if phi, ok := v.(*ssa.Phi); ok {
+		if c.phiStack == nil {
+			c.phiStack = map[*ssa.Phi]bool{}
+		}
+		if c.phiStack[phi] {
+			return "↺"
+		}
+		c.phiStack[phi] = true
+		defer delete(c.phiStack, phi)
+	}
 	switch x := v.(type) {
 	case *ssa.Const:
 		if s, ok := ir.ConstString(x); ok {
@@ -121,12 +151,46 @@ func (c *Ctx) exprDesc1(v ssa.Value, depth int) string {
 		st := ir.StructOf(x.X.Type())
 		return c.exprDesc1(x.X, d) + "." + st.Field(x.Field).Name()
 	case *ssa.IndexAddr:
+		if c.isLoopIndexOf(x.Index, x.X) {
+			return "elem(" + c.exprDesc1(x.X, d) + ")"
+		}
 		return c.exprDesc1(x.X, d) + "[" + c.exprDesc1(x.Index, d) + "]"
 	case *ssa.Index:
+		if c.isLoopIndexOf(x.Index, x.X) {
+			return "elem(" + c.exprDesc1(x.X, d) + ")"
+		}
 		return c.exprDesc1(x.X, d) + "[" + c.exprDesc1(x.Index, d) + "]"
 	case *ssa.Lookup:
 		return c.exprDesc1(x.X, d) + "[" + c.exprDesc1(x.Index, d) + "]"
 	case *ssa.Slice:
+		if a, ok := x.X.(*ssa.Alloc); ok && a.Comment == "varargs" && x.Low == nil && x.High == nil {
+			// variadic argument list: print the elements in order
+			type el struct {
+				i int64
+				s string
+			}
+			var els []el
+			if a.Referrers() != nil {
+				for _, ref := range *a.Referrers() {
+					ia, ok := ref.(*ssa.IndexAddr)
+					if !ok || ia.Referrers() == nil {
+						continue
+					}
+					idx, _ := ir.ConstInt(ia.Index)
+					for _, r2 := range *ia.Referrers() {
+						if st, ok := r2.(*ssa.Store); ok && st.Addr == ssa.Value(ia) {
+							els = append(els, el{idx, c.exprDesc1(st.Val, d)})
+						}
+					}
+				}
+			}
+			sort.Slice(els, func(i, j int) bool { return els[i].i < els[j].i })
+			var parts []string
+			for _, e := range els {
+				parts = append(parts, e.s)
+			}
+			return "[" + strings.Join(parts, ",") + "]"
+		}
 		lo, hi := "", ""
 		if x.Low != nil {
 			lo = c.exprDesc1(x.Low, d)
@@ -514,4 +578,18 @@ func (c *Ctx) acceptedRunes(fn *ssa.Function, depth int) (runeSet, bool) {
 		acc = acc.union(set.intersect(s))
 	})
 	return acc.norm(), ok && complete
+}
+
+// isLoopIndexOf: idx is the induction variable of a complete loop over coll.
+func (c *Ctx) isLoopIndexOf(idx, coll ssa.Value) bool {
+	in, ok := idx.(ssa.Instruction)
+	if !ok || in.Parent() == nil {
+		return false
+	}
+	for _, l := range c.loopsOf(in.Parent()) {
+		if l.Index == idx && l.Complete && (l.Over == coll || c.exprDesc(l.Over) == c.exprDesc(coll)) {
+			return true
+		}
+	}
+	return false
 }
